@@ -174,6 +174,8 @@ func (s *IndexedState) Load(ctx *Context) error {
 				// We have an expired fact in storage.
 				// Need to delete it and then skip it here.
 				// since no cache has been created, just remove it directly from the store
+				// (A cron that is persistent still has its job.)
+				s.unhook(ctx, id, x)
 				if _, err = s.Store.Remove(ctx, s.Name, []byte(id)); err != nil {
 					Log(ERROR, ctx, "IndexedState.Load", "location", s.Name, "error", err, "when", "rem", "id", id)
 					return err
@@ -306,7 +308,8 @@ func (s *IndexedState) add(ctx *Context, id string, x Map) (string, error) {
 	// something else (a rule with another 'when', a scheduled
 	// rule or a plain fact).
 	var oldRule Map
-	if old, have := s.IdToFact[id]; have {
+	old, have := s.IdToFact[id]
+	if have {
 		if oldRule, _ = ExtractRule(ctx, old, false); oldRule != nil {
 			if err = s.unindexRule(ctx, id, oldRule); err != nil {
 				return "", err
@@ -360,6 +363,11 @@ func (s *IndexedState) add(ctx *Context, id string, x Map) (string, error) {
 		s.FactIndex.Add(ctx, term, id)
 	}
 
+	if have && !scheduled(fact) {
+		// The replaced record leaves, and the add hook has not
+		// registered the new one in its place.
+		s.unhook(ctx, id, old)
+	}
 	s.IdToFact[id] = fact
 
 	elapsed := time.Now().Sub(then).Nanoseconds()
@@ -448,11 +456,24 @@ func (s *IndexedState) Rem(ctx *Context, id string) (bool, error) {
 			return false, err
 		}
 	}
-	done, err := s.rem(ctx, id)
+	// The hook has run for this id (not for its dependents).
+	done, err := s.rem(ctx, id, false)
 	return done, err
 }
 
-func (s *IndexedState) rem(ctx *Context, id string) (bool, error) {
+// unhook runs the rem hook for a record that leaves the state other
+// than as the argument of Rem.  The record leaves whatever the hook
+// says: an error is logged.
+func (s *IndexedState) unhook(ctx *Context, id string, fact Map) {
+	if err := runRemHook(ctx, s, s.remHook, id, fact); err != nil {
+		Log(ERROR, ctx, "IndexedState.unhook", "state", s.Name, "error", err,
+			"id", id, "when", "remHook")
+	}
+}
+
+// rem removes the given id and its dependents.  With unhook, the rem
+// hook is run for the id, too (Rem has done that itself).
+func (s *IndexedState) rem(ctx *Context, id string, unhook bool) (bool, error) {
 	Log(DEBUG, ctx, "IndexedState.rem", "name", s.Name, "id", id)
 	s.cachedRules.drop(id)
 
@@ -476,6 +497,9 @@ func (s *IndexedState) rem(ctx *Context, id string) (bool, error) {
 			}
 		}
 
+		if unhook {
+			s.unhook(ctx, id, fact)
+		}
 		delete(s.IdToFact, id)
 
 		s.FactIndex.RemIdTerms(ctx, ExtractTerms(ctx, fact), id)
@@ -517,7 +541,7 @@ func (s *IndexedState) deleteDependencies(ctx *Context, id string) error {
 	for _, target := range targets {
 		Log(DEBUG, ctx, "IndexedState.deleteDependencies",
 			"location", s.Name, "id", id, "target", target)
-		if _, err := s.rem(ctx, target); nil != err {
+		if _, err := s.rem(ctx, target, true); nil != err {
 			return err
 		}
 	}
@@ -527,13 +551,11 @@ func (s *IndexedState) deleteDependencies(ctx *Context, id string) error {
 
 func (s *IndexedState) remHooks(ctx *Context) error {
 	if s.remHook != nil {
-		// Try to run the remHook for every fact.
+		// Try to run the remHook for every fact (expired or not).
 		//
 		// Consider the lock.
-		s.withPrivilege(ctx)
-		defer s.withoutPrivilege(ctx)
-		for id := range s.IdToFact {
-			err := s.remHook(ctx, s, id)
+		for id, fact := range s.IdToFact {
+			err := runRemHook(ctx, s, s.remHook, id, fact)
 			if err != nil {
 				Log(ERROR, ctx, "IndexedState.Clear", "state", s.Name, "error", err,
 					"id", id, "when", "remHook")
@@ -675,7 +697,7 @@ func (s *IndexedState) purge(ctx *Context) {
 			if expired, _ := checkExpiration(ctx, fact, 0); !expired {
 				continue
 			}
-			if _, err := s.rem(ctx, id); err != nil {
+			if _, err := s.rem(ctx, id, true); err != nil {
 				Log(ERROR, ctx, "IndexedState.purge", "name", s.Name, "id", id, "error", err)
 			}
 		}
